@@ -141,12 +141,13 @@ def register_table_access(reg):
         tt = ["varying", "piecewise", "uniform", "fixed"][interp.ctx.decide(4, "ttype")]
         perm = interp.ctx.decide(2, "is_permuted") == 1
         tensor = interp.ctx.ghost["tensor"]
-        tf = [types.SimpleNamespace(name=F1), types.SimpleNamespace(name=F2)] if tensor else None
+        tf = [types.SimpleNamespace(name=F1), types.SimpleNamespace(name=F2)] if tensor == 1 else None
         return types.SimpleNamespace(name=TABLE, is_uniform=tt in ("fixed", "uniform"), is_piecewise=tt in ("fixed", "piecewise"),
                                      is_permuted=perm, tensor_factors=tf)
 
     def mk_tensor(interp, name):
-        t = interp.ctx.decide(2, "tensor-product indices") == 1
+        # 0: plain rule and table; 1: tensor-product rule and factorised table; 2: tensor-product rule, table without factors
+        t = interp.ctx.decide(3, "tensor-product indices")
         interp.ctx.ghost["tensor"] = t
         return t
 
@@ -156,7 +157,7 @@ def register_table_access(reg):
         return L.MultiIndex([L.Symbol("iq", L.DataType.INT)], [7])
 
     def mk_d(interp, name):
-        if interp.ctx.ghost["tensor"]:
+        if interp.ctx.ghost["tensor"] == 1:
             return L.MultiIndex([L.Symbol("ic0", L.DataType.INT), L.Symbol("ic1", L.DataType.INT)], [3, 3])
         return L.MultiIndex([L.Symbol("ic", L.DataType.INT)], [6])
 
@@ -169,13 +170,16 @@ def register_table_access(reg):
              dof_index=Custom(mk_d)),
         ghosts=dict(tensor=Custom(mk_tensor)),
         ensures=[
-            "implies(not tensor, ev(result[0], env) == env.mem(TABLE, [" + PERM + ", " + ENT + ","
+            "implies(tensor == 0, ev(result[0], env) == env.mem(TABLE, [" + PERM + ", " + ENT + ","
             " (0 if tabledata.is_piecewise else env.sym('iq')), env.sym('ic')]))",
-            "implies(not tensor, [s.name for s in result[1]] == [TABLE])",
+            "implies(tensor != 1, [s.name for s in result[1]] == [TABLE])",
+            # a table without tensor factors inside a tensor-product quadrature loop: the flattened (row-major) point index
+            "implies(tensor == 2, ev(result[0], env) == env.mem(TABLE, [" + PERM + ", " + ENT + ","
+            " (0 if tabledata.is_piecewise else 4 * env.sym('iq0') + env.sym('iq1')), env.sym('ic')]))",
             # sum factorisation: product over the directions of the 1D factor tables, same permutation / entity
-            "implies(tensor, ev(result[0], env) == env.mem('FE_TF0', [" + PERM + ", " + ENT + ", env.sym('iq0'), env.sym('ic0')])"
+            "implies(tensor == 1, ev(result[0], env) == env.mem('FE_TF0', [" + PERM + ", " + ENT + ", env.sym('iq0'), env.sym('ic0')])"
             " * env.mem('FE_TF1', [" + PERM + ", " + ENT + ", env.sym('iq1'), env.sym('ic1')]))",
-            "implies(tensor, [s.name for s in result[1]] == ['FE_TF0', 'FE_TF1'])",
+            "implies(tensor == 1, [s.name for s in result[1]] == ['FE_TF0', 'FE_TF1'])",
         ],
         properties=["C01", "C02", "C03", "C08", "C10"], modular=False, name="FFCXBackendAccess.table_access",
         mutants=[("iq_i = quadrature_index.local_index(i)\n                ic_i = dof_index.local_index(i)",
